@@ -422,4 +422,47 @@ Section TopComplete.
     - split; [now apply in_map|]. split; [exact Hlnc|exact Hcnc].
     - split; [now apply in_map|]. split; [exact Hlwc|exact Hcwc].
   Qed.
+
+  Lemma lacks_has_type r t : ~ In t (n3_types r) -> has_type r t = false.
+  Proof.
+    intros Hn. unfold has_type. apply not_true_iff_false. intros Hx. apply existsb_exists in Hx.
+    destruct Hx as (x & Hin & E). apply N.eqb_eq in E. subst. contradiction.
+  Qed.
+
+  (* NODATA: a genuine record matching QNAME whose node lacks QTYPE and CNAME is accepted *)
+  Theorem top_nodata_complete qname qtype answers rs soft hard ts rq :
+    let lq := lower_name qname in
+    rs <> [] -> Forall (genuine h z salt iter) rs ->
+    collision_free h (z_names z ++ relevant lq) ->
+    iter <= soft -> iter <= hard ->
+    In (lq, ts) (z_nodes z) -> lacks ts qtype -> lacks ts T_CNAME ->
+    In rq rs -> label_eqb (hd [] (n3_owner rq)) (b32 (h lq)) = true ->
+    verify_nsec3_gen H WC qname qtype (Some (z_apex z)) 0 answers rs soft hard = R Secure.
+  Proof.
+    intros lq Hne Hg Hcf Hsoft Hhard Hnode Hl1 Hl2 Hrq Hlq.
+    destruct rs as [|first rs']; [congruence|]. rewrite verify_unfold.
+    rewrite (mk_pairs_genuine _ Hg).
+    assert (forallb (same_params first) (first :: rs') = true) as ->.
+    { apply forallb_forall. intros r Hr. rewrite Forall_forall in Hg.
+      apply genuine_same_params; apply Hg; [now left|exact Hr]. }
+    cbn [negb].
+    assert (n3_salt first = salt /\ n3_iter first = iter) as [Es Ei].
+    { inversion Hg as [|? ? Hf _]; subst. destruct Hf as (? & ? & ? & ? & _ & _ & _ & _ & _ & _ & E1 & E2 & _). auto. }
+    rewrite Ei. apply N.ltb_ge in Hhard, Hsoft. rewrite Hhard, Hsoft.
+    unfold dispatch. rewrite Es, Ei. change (0 =? 3) with false. change (0 =? 0) with true. cbv iota.
+    set (ps := map pair_of (first :: rs')).
+    pose proof (genuine_pairs h z salt iter _ _ _ Hg (mk_pairs_genuine _ Hg)) as Hgp. fold ps in Hgp.
+    unfold validate_nodata. cbv zeta.
+    change (hi_label (mk_info H (mkCtx qname (Some (z_apex z)) ps salt iter) qname)) with (b32 (h lq)).
+    cbn [c_pairs].
+    destruct (find_exists (fun p : pair => label_eqb (fst p) (b32 (h lq))) ps (pair_of rq)
+                (in_map pair_of _ _ Hrq) Hlq) as (qr & Eqr).
+    unfold find_match.
+    match goal with |- context [find ?f ?l] => assert (find f l = Some qr) as -> by exact Eqr end.
+    destruct (find_some_in _ _ _ Eqr) as [Hqin Hql].
+    assert (In (lq, n3_types (snd qr)) (z_nodes z)) as Hn2.
+    { eapply (matched_in_zone H z salt iter Hh qname ps Hgp Hcf); try eassumption. apply lq_relevant. }
+    destruct Hz as (_ & _ & _ & Huniq). rewrite (Huniq _ _ _ Hnode Hn2) in Hl1, Hl2.
+    now rewrite (lacks_has_type _ _ Hl1), (lacks_has_type _ _ Hl2).
+  Qed.
 End TopComplete.
